@@ -376,8 +376,10 @@ def history_event(args):
     ty, ops, withref = args[:3]
     reread = len(args) > 3 and args[3] is True
     dictback = len(args) > 3 and args[3] == "dictback"
+    world = args[4] if len(args) > 4 else "dyn"
     w = msgev.world()
-    return {"ty": ty, "log": run_history(w["schema"], w["bp"], ty, ops, msgev.ref_classes() if withref else None, reread, dictback), "case": {"ty": ty, "ops": ops}}
+    C = msgev.classes_for({"world": world})
+    return {"ty": ty, "log": run_history(w["schema"], C, ty, ops, msgev.ref_classes() if withref else None, reread, dictback), "case": {"ty": ty, "ops": ops, "world": world}}
 
 
 def run_histories(ctx, types, count, length, emphasis, withref=False, extra=(), judge_len=False, judge_dict=False):
@@ -385,10 +387,14 @@ def run_histories(ctx, types, count, length, emphasis, withref=False, extra=(), 
     w = msgev.world()
     rnd = ctx.rnd
     cases = []
+    have_gen = bool(msgev.gen_world())
     for _ in range(count):
         ty = rnd.choice(types)
-        cases.append((ty, gen_history(w["schema"], ty, rnd, rnd.randint(2, length), emphasis), withref, "dictback" if judge_dict else bool(judge_len)))
-    cases += [(ty, ops, withref, "dictback" if judge_dict else bool(judge_len)) for ty, ops in extra]
+        # (every fourth history runs on the classes the real plugin generates for the schema)
+        world_ = "gen" if (len(cases) % 4 == 3 and ty != "TOneP" and have_gen) else "dyn"
+        cases.append((ty, gen_history(w["schema"], ty, rnd, rnd.randint(2, length), emphasis), withref, "dictback" if judge_dict else bool(judge_len), world_))
+    cases += [(ty, ops, withref, "dictback" if judge_dict else bool(judge_len), "dyn") for ty, ops in extra]
+    msgev.gen_world()
     events = ctx.pmap(history_event, cases)
     for c in cases:
         ctx.count_case((c[0], repr(c[1])), len(c[1]) > 1)
